@@ -122,20 +122,25 @@ fn generate_inner(prop: &str, run_seed: u64, log: Option<std::sync::Arc<std::syn
     let mut ops: Vec<Op> = vec![];
     let mut stop = None;
     'outer: loop {
-        let batch = g.next(&w);
+        let (batch, pre) = g.next(&w);
         if batch.is_empty() {
             break;
         }
-        for op in batch {
+        for (bi, op) in batch.into_iter().enumerate() {
             ops.push(op.clone());
             if let Some(l) = &log {
                 l.lock().unwrap().push(op.clone());
+            }
+            if bi < pre {
+                // already performed by the generator: account for it, do not read twice
+                w.account(&op);
+                continue;
             }
             if let Err(s) = w.exec(&op) {
                 stop = Some(s);
                 break 'outer;
             }
-            if ops.len() > 400 {
+            if ops.len() > 600 {
                 break 'outer;
             }
         }
@@ -283,6 +288,7 @@ pub fn shrink(cfg: &RunCfg, ops: &[Op], class: &str, budget: usize) -> (RunCfg, 
 fn max_replica(o: &Op) -> usize {
     match o {
         Op::Meld { r, from } => *r.max(from),
+        Op::SameEdit { a, b, .. } => *a.max(b),
         Op::Send { from, to, .. } | Op::SendAll { from, to } => *from.max(to),
         other => other.replica().unwrap_or(0),
     }
